@@ -63,8 +63,11 @@ var wrapPoints = []uint32{0, 1000, 0x7fffff00, 0x7ffffff0, 0x80000000, 0xffffff0
 	0xffffffff - 5000, 0xffffffff - 7000, 0xffffffff - 70000, 0xffffffff - 100000,
 	0x7fffffff - 5000, 0x7fffffff - 7000, 0x7fffffff - 70000, 0x7fffffff - 100000}
 
+// wrapOnly: every initial sequence number next to a wrap point (focus C14)
+var wrapOnly bool
+
 func pickISN(r *hx.Run) uint32 {
-	if r.R.Intn(3) == 0 {
+	if !wrapOnly && r.R.Intn(3) == 0 {
 		return r.R.Uint32()
 	}
 	return wrapPoints[r.R.Intn(len(wrapPoints))] + uint32(r.R.Intn(5))
@@ -147,8 +150,74 @@ func (w *World) passiveOpen(r *hx.Run, sport uint16) *conn {
 	return c
 }
 
+// wrapStraddle: when the peer's next sequence number lies a few thousand bytes below 2^31 or 2^32, drive the
+// receive path across the wrap on purpose: in-order data that crosses it, then a retransmission that starts below
+// the wrap and ends beyond what has been received (old bytes + new bytes), a hole that straddles the wrap filled
+// late, or a stale duplicate that straddles it.  Random transfers reach these alignments far too rarely.
+func (w *World) wrapStraddle(r *hx.Run, c *conn, sport uint16) {
+	d := -c.pSeq // bytes until 2^32
+	if d == 0 || d > 4000 {
+		d = 0x80000000 - c.pSeq // bytes until 2^31
+	}
+	if d == 0 || d > 4000 || c.finSent {
+		return
+	}
+	r.Count("tcp.wrap-straddle")
+	from := len(w.Seen)
+	send := func(seq uint32, b []byte) { w.Seg(sport, LPort, 24, seq, c.sAcked, 65535, c.opts(r), b) }
+	e1 := 1 + r.R.Intn(300)
+	first := make([]byte, int(d)+e1)
+	r.R.Read(first)
+	base := c.pSeq
+	switch r.R.Intn(4) {
+	case 0, 1: // in order across the wrap, then old+new starting below the wrap
+		send(base, first)
+		c.sent = append(c.sent, first...)
+		c.pSeq += uint32(len(first))
+		back := 1 + r.R.Intn(int(minU(d, 200)))
+		nb := make([]byte, 1+r.R.Intn(400))
+		r.R.Read(nb)
+		start := int(d) - back
+		send(base+uint32(start), append(append([]byte{}, first[start:]...), nb...))
+		c.sent = append(c.sent, nb...)
+		c.pSeq += uint32(len(nb))
+	case 2: // the part behind the wrap first, the part below it later (one byte more than the gap: overlap)
+		cut := int(d) - r.R.Intn(int(minU(d, 100))+1)
+		if cut < 1 {
+			cut = 1
+		}
+		send(base+uint32(cut), first[cut:])
+		end := cut + r.R.Intn(e1)
+		if end > len(first) {
+			end = len(first)
+		}
+		send(base, first[:end])
+		c.sent = append(c.sent, first...)
+		c.pSeq += uint32(len(first))
+	default: // in order, then a stale duplicate that straddles the wrap
+		send(base, first)
+		c.sent = append(c.sent, first...)
+		c.pSeq += uint32(len(first))
+		back := 1 + r.R.Intn(int(minU(d, 200)))
+		start := int(d) - back
+		end := int(d) + 1 + r.R.Intn(e1)
+		if end > len(first) {
+			end = len(first)
+		}
+		send(base+uint32(start), first[start:end])
+	}
+	w.observe(c, from)
+	for j := 0; j < 8; j++ {
+		w.Read(c.id)
+		if !w.lastReadData {
+			break
+		}
+	}
+}
+
 func (w *World) transfer(r *hx.Run, c *conn, sport uint16, steps int) {
 	rtoBudget := 4
+	w.wrapStraddle(r, c, sport)
 	for k := 0; k < steps; k++ {
 		from := len(w.Seen)
 		wnd := uint16([]int{65535, 65535, 30000, 5000, 1460, 536, 1, 0}[r.R.Intn(8)])
@@ -353,6 +422,56 @@ func (w *World) halfCloseClosedWindow(r *hx.Run, c *conn, sport uint16) {
 	w.observe(c, from)
 }
 
+// finBehindData: data and the FIN are in flight together, the peer acknowledges the data only (the FIN is lost,
+// or its acknowledgement is): the retransmission timer must still be armed and must send the FIN again.
+func (w *World) finBehindData(r *hx.Run, c *conn, sport uint16) {
+	// start from a quiet connection with an open window
+	from := len(w.Seen)
+	w.Seg(sport, LPort, 16, c.pSeq, c.sNxt, 65535, c.opts(r), nil)
+	if seqLT(c.sAcked, c.sNxt) {
+		c.sAcked = c.sNxt
+	}
+	w.observe(c, from)
+	b := make([]byte, 1+r.R.Intn(2500))
+	r.R.Read(b)
+	from = len(w.Seen)
+	w.Write(c.id, b)
+	w.observe(c, from)
+	from = len(w.Seen)
+	w.Shutdown(c.id, "w")
+	w.observe(c, from)
+	if !c.finRcvd || !seqLT(c.sAcked, c.sNxt-1) {
+		return // the FIN did not go out (window, state): nothing to stage
+	}
+	r.Count("tcp.fin-behind-data")
+	// the data is acknowledged in one or two steps, the FIN is not
+	if r.R.Intn(2) == 0 {
+		mid := c.sAcked + uint32(1+r.R.Intn(int(c.sNxt-1-c.sAcked)))
+		from = len(w.Seen)
+		w.Seg(sport, LPort, 16, c.pSeq, mid, 65535, c.opts(r), nil)
+		c.sAcked = mid
+		w.observe(c, from)
+	}
+	from = len(w.Seen)
+	w.Seg(sport, LPort, 16, c.pSeq, c.sNxt-1, 65535, c.opts(r), nil)
+	c.sAcked = c.sNxt - 1
+	w.observe(c, from)
+	if r.R.Intn(3) == 0 { // a stale duplicate from the peer in between
+		from = len(w.Seen)
+		w.Seg(sport, LPort, 16, c.pSeq, c.sNxt-1, 65535, c.opts(r), nil)
+		w.observe(c, from)
+	}
+	for k := 1 + r.R.Intn(2); k > 0; k-- {
+		from = len(w.Seen)
+		w.RTO(c.id, 0)
+		w.observe(c, from)
+	}
+	from = len(w.Seen)
+	w.Seg(sport, LPort, 16, c.pSeq, c.sNxt, 65535, c.opts(r), nil)
+	c.sAcked = c.sNxt
+	w.observe(c, from)
+}
+
 // lossEpisode: a flight of segments of which the first is lost: duplicate ACKs, then the retransmission
 // is acknowledged partially or fully, sometimes followed by silence (timeout).
 func (w *World) lossEpisode(r *hx.Run, c *conn, sport uint16) {
@@ -392,6 +511,10 @@ func Gen(r *hx.Run, focus string) {
 	if focus == "C03" {
 		nh = r.Pick(300, 4000)
 	}
+	if focus == "C14" {
+		nh = r.Pick(90, 900)
+		wrapOnly = true
+	}
 	if v := os.Getenv("TCP_NH"); v != "" {
 		fmt.Sscan(v, &nh)
 	}
@@ -410,6 +533,8 @@ func Gen(r *hx.Run, focus string) {
 			w.halfCloseClosedWindow(r, c, sport)
 		case k == 3 || (focus == "C05" && k < 8):
 			w.lossEpisode(r, c, sport)
+		case k == 5 || (focus == "C02" && k < 9):
+			w.finBehindData(r, c, sport)
 		}
 	}
 	var prev *World
